@@ -118,7 +118,9 @@ def run(ck, tier, seed):
         vlib.absorb(ck, h, pid=p) if p == "C01" else None
     if h.summary:
         ck.traces += h.summary["extra"]["loads"]
-        ck.extra["impl"] = {"loadfont": dict(h.summary["extra"], cases=len(seen), model_drift=h.summary["drift"])}
+        ck.extra.setdefault("impl", {})["loadfont"] = dict(h.summary["extra"], cases=len(seen), model_drift=h.summary["drift"])
+    # glyph attribute storage: spec/Sparse.tla behaviours written into Glat tables and read back
+    readers_common.sparse_cases(ck, tier, seed, tmp, exe)
     ck.assumptions += ["arbitrary unstructured byte strings are not enumerated: inputs are boundary-valued fields (TLC assignments on synthesised fonts, "
                        "independent-reader field maps on shipped fonts), truncations, missing tables, the repository's fuzz regressions",
                        "sensors: ASan/UBSan/LSan, exact-size guarded tables, poisoned released tables, watchdog, allocator byte counter"]
